@@ -125,10 +125,17 @@ P2_TAGC = '''package p2
 #define C13VT 0
 #endif
 static int c13vt(void) { return C13VT; }
+static int c13k1(void) { return 1; }
+static int c13k2(void) { return 2; }
+static int c13k3(void) { return 3; }
+static int c13k4(void) { return 4; }
+static int c13k5(void) { return 5; }
+#define C13M6 6
 */
 import "C"
 
-var tagv = int(C.c13vt())
+// several C names: the generated definitions must come in the same order in every build
+var tagv = int(C.c13vt()) + (int(C.c13k1()+C.c13k2()+C.c13k3()+C.c13k4()+C.c13k5()) + int(C.C13M6) - 21)
 '''
 
 
